@@ -30,6 +30,7 @@ def _atoms():
         A[name] = (cl, zz)
 
     add("x<=K0", lambda c, V, K: c.ULE(V["x"], K[0]), lambda V, K: z3.ULE(V["x"], K[0]))
+    add("x<=K1", lambda c, V, K: c.ULE(V["x"], K[1]), lambda V, K: z3.ULE(V["x"], K[1]))
     add("x>=K1", lambda c, V, K: c.UGE(V["x"], K[1]), lambda V, K: z3.UGE(V["x"], K[1]))
     add("x!=K2", lambda c, V, K: V["x"] != K[2], lambda V, K: V["x"] != K[2])
     add("x==K0", lambda c, V, K: V["x"] == K[0], lambda V, K: V["x"] == K[0])
@@ -87,6 +88,9 @@ CLASSES = {
     "SolverComposite": lambda cl, be, track=False: cl.SolverComposite(template_solver=cl.solvers.SolverCompositeChild(backend=be, track=track), track=track),
     "SolverReplacement": lambda cl, be, track=False: cl.SolverReplacement(actual_frontend=cl.Solver(backend=be, track=track)),
     "SolverHybridExact": lambda cl, be, track=False: cl.SolverHybrid(exact_frontend=cl.Solver(backend=be, track=track)),
+    # the same object; histories for it ask with exact=False (steps asat / aeval / amin / amax / asolution): the approximate side is the
+    # REAL SolverReplacement over SolverVSA (constraint_to_si + the VSA backend), the exact side the oracle backend
+    "SolverHybridApprox": lambda cl, be, track=False: cl.SolverHybrid(exact_frontend=cl.Solver(backend=be, track=track)),
 }
 
 
@@ -105,11 +109,13 @@ def vars_of_history(hist):
             atoms(st[2])
         elif op in ("sat", "unsat_core"):
             atoms(st[2] if len(st) > 2 else [])
-        elif op in ("eval", "min", "max", "solution", "batch"):
+        elif op in ("eval", "min", "max", "solution", "batch", "aeval", "amin", "amax", "asolution"):
             es = st[2] if op == "batch" else [st[2]]
             for e in es:
                 names.update(_expr_vars(e))
             atoms(st[-1])
+        elif op == "asat":
+            atoms(st[2])
         elif op in ("is_true", "is_false"):
             atoms([st[2]])
             atoms(st[3])
@@ -216,6 +222,26 @@ def run_history(cl, be, cls, hist, zV, zK, K, track=False, pickle_hook=None):
             elif op in ("is_true", "is_false"):
                 r = getattr(s, op)(A([st[2]])[0], extra_constraints=tuple(A(st[3])))
                 log.append((i, op, sid, r, ref.conj(sid, ZA(st[3])), ZA([st[2]])[0]))
+            elif op == "asat":
+                r = s.satisfiable(extra_constraints=tuple(A(st[2])), exact=False)
+                log.append((i, "asat", sid, r, ref.conj(sid, ZA(st[2]))))
+            elif op in ("aeval", "amin", "amax", "asolution"):
+                ce = EXPRS[st[2]][0](cl, V, K)
+                ze = EXPRS[st[2]][1](zV, zK)
+                F = ref.conj(sid, ZA(st[4]))
+                ex_ = tuple(A(st[4]))
+                try:
+                    if op == "aeval":
+                        r = list(s.eval(ce, st[3], extra_constraints=ex_, exact=False))
+                        log.append((i, "aeval", sid, r, F, ze, st[3]))
+                    elif op == "asolution":
+                        r = s.solution(ce, K[st[3]], extra_constraints=ex_, exact=False)
+                        log.append((i, "asolution", sid, r, F, ze, zK[st[3]]))
+                    else:
+                        r = getattr(s, op[1:])(ce, extra_constraints=ex_, signed=st[3], exact=False)
+                        log.append((i, op, sid, r, F, ze, st[3]))
+                except UnsatError:
+                    log.append((i, "aunsat", sid, None, F))
             elif op == "simplify":
                 s.simplify()
             elif op == "downsize":
@@ -353,6 +379,34 @@ def check_log(be, log, s, prop):
             if r:
                 bad = ex(z3.And(F, z3.Not(za))) if kind == "is_true" else ex(z3.And(F, za))
                 fails.append(Fail(kind, f"step {i}: {kind}() answered True but it does not follow from the constraints (solver {sid})", bad, known_key=kind))
+        elif kind == "asat":
+            _, _, sid, r, F = rec
+            if not r:
+                fails.append(Fail("approx-sat", f"step {i}: satisfiable(exact=False) = False although the constraints are satisfiable (solver {sid})", ex(F), known_key="approx"))
+        elif kind == "aunsat":
+            _, _, sid, _, F = rec
+            fails.append(Fail("approx-UnsatError", f"step {i}: an approximate query raised UnsatError although the constraints are satisfiable (solver {sid})", ex(F), known_key="approx"))
+        elif kind == "aeval":
+            _, _, sid, r, F, ze, n = rec
+            if len(r) < n:
+                # fewer values than asked for: the approximate answer is complete, so it must contain every value that exists
+                missing = z3.And(*[ze != lit(ze, v) for v in r]) if r else z3.BoolVal(True)
+                fails.append(Fail("approx-eval", f"step {i}: eval(exact=False) = {r!r:.60} (< {n}) excludes a value the expression can take (solver {sid})",
+                                  ex(z3.And(F, missing)), known_key="approx"))
+        elif kind in ("amin", "amax"):
+            _, _, sid, r, F, ze, signed = rec
+            m = lit(ze, r)
+            if signed:
+                beyond = (ze < m) if kind == "amin" else (ze > m)
+            else:
+                beyond = z3.ULT(ze, m) if kind == "amin" else z3.UGT(ze, m)
+            fails.append(Fail("approx-" + kind[1:], f"step {i}: {kind[1:]}(exact=False, signed={signed}) = {r!r:.40} cuts off a value the expression can take (solver {sid})",
+                              ex(z3.And(F, beyond)), known_key="approx"))
+        elif kind == "asolution":
+            _, _, sid, r, F, ze, zv = rec
+            if not r:
+                fails.append(Fail("approx-solution", f"step {i}: solution(exact=False) = False for a value the expression can take (solver {sid})",
+                                  ex(z3.And(F, ze == zv)), known_key="approx"))
         elif kind == "raised":
             fails.append(Fail("exception", f"step {i}: {rec[4]} raised {rec[3]}", None, known_key="exc:" + rec[3].split(":")[0]))
         elif kind == "constraints":
@@ -458,13 +512,36 @@ def run_obligation_generic(oid, params, tier, prop):
     known = common.known_for(common.load_known(prop), oid)
     wants = params.get("kinds")
 
+    approx = cls == "SolverHybridApprox"
+    if approx:
+        from . import vsaglue
+
+        vsaglue.install()
+
     def build():
         be.reset_run()
         _FCTR[0] = 0
         if fault:
             E.ENG.assume(z3.ULT(be.fault_at, 40))
         K = [glue.BVV(glue.mk(k), N) for k in zK]
-        return run_history(claripy, be, cls, hist, zV, zK, K, track=track)
+        if not approx:
+            return run_history(claripy, be, cls, hist, zV, zK, K, track=track)
+        E.FORMAT_MODE[0] = "concretize"     # interval hashes are built from formatted fields
+        vsaglue.reset_calls()
+        try:
+            return run_history(claripy, be, cls, hist, zV, zK, K, track=track)
+        finally:
+            E.FORMAT_MODE[0] = "opaque"
+
+    def classify(m):
+        from . import vsaglue
+
+        def ev(v):
+            if isinstance(v, E.SInt):
+                return m.eval(E.term(v), model_completion=True).as_long()
+            return int(v)
+
+        return "inherits" if vsaglue.attribute(ev) else None
 
     def check(path, s, out):
         if path.kind == "exc":
@@ -476,6 +553,10 @@ def run_obligation_generic(oid, params, tier, prop):
         fl = check_log(be, out, s, prop)
         if fault:
             fl = _fault_filter(out, fl)
+        if approx:
+            for f in fl:
+                if f.kind.startswith("approx") and f.classify is None:
+                    f.classify = classify
         if wants:
             fl = [f for f in fl if any(f.kind.startswith(w) for w in wants)]
         return fl
@@ -529,7 +610,7 @@ def _validate_history(hist):
                         raise KeyError(f"history mentions unknown atom/expression {a!r}")
             elif isinstance(part, str) and part not in ATOMS and part not in EXPRS and part not in (
                     "add", "sat", "eval", "batch", "min", "max", "solution", "is_true", "is_false", "simplify", "downsize", "branch", "pickle", "pickle2",
-                    "unsat_core", "combine", "merge", "split"):
+                    "unsat_core", "combine", "merge", "split", "asat", "aeval", "amin", "amax", "asolution"):
                 raise KeyError(f"history mentions unknown name {part!r}")
 
 
@@ -547,7 +628,8 @@ def replay(case):
     """1. the history on the REAL Z3 backend with the counterexample's constants, every answer compared with brute force;
     2. if Z3 happens to choose other models than the counterexample needs: the history on the oracle backend with concrete
        constants, exploring the backend's legal model choices; every answer re-checked on ground formulas."""
-    if not case.get("fault"):
+    approx = any(st[0] in ("asat", "aeval", "amin", "amax", "asolution") for st in case["hist"])
+    if not case.get("fault") and not approx:
         d = _replay_real_z3(case)
         if d.get("violated"):
             d["detail"] = "[real Z3 backend] " + d["detail"]
